@@ -117,7 +117,7 @@ package identity
 // CheckMaliciousValidators rebuilds vs.maliciousValidators and freezes (MISSED_REQUIRED_VOTES) active validators whose
 // cumulative vote count is below the minimum. It only writes suspicious-validator records; a frozen validator stays frozen.
 //@ func (*ValidatorStore).CheckMaliciousValidators
-//@   requires vs != nil && vs.store != nil && es != nil && govern != nil
+//@   requires vs != nil && vs.store != nil && es != nil && es.state != nil && govern != nil
 //@   modifies vs.maliciousValidators, evS(es), vHas(es.state), vVal(es.state)
 //@   ensures forall a string :: evS(es)[a] != old(evS(es))[a] ==> len(evS(es)[a]) != 0 && deserok(evS(es)[a], "evidence.LastValidatorHistory") && deser(evS(es)[a], "evidence.LastValidatorHistory").ReleaseAt == nil && deser(evS(es)[a], "evidence.LastValidatorHistory").Status == evMISSED()   // C19.frozen-stays-frozen
 // CLAIM: a validator frozen for a BYZANTINE_FAULT keeps that record (status and freeze time) until it is released
